@@ -95,6 +95,10 @@ Qed.
 Definition binder_b (x : name) : bool :=
   match chan x with None => negb (String.eqb (ident x) "") | Some _ => false end.
 
+Definition pbinder_b (x : name) : bool := match chan x with None => true | Some _ => false end.
+Lemma pbinder_b_sound x : pbinder_b x = true -> pbinder x.
+Proof. unfold pbinder_b, pbinder. destruct (chan x); [discriminate|auto]. Qed.
+
 Lemma binder_b_sound x : binder_b x = true -> binder x.
 Proof.
   unfold binder_b, binder. destruct (chan x); [discriminate|]. intros H. split; auto.
@@ -148,18 +152,18 @@ Fixpoint typed_b (Γ : gmap string sty) (sh : option string) (rs : gset string) 
       | None => false
       end
   | FRecv pay cont from k =>
-    binder_b pay && binder_b cont && negb (String.eqb (ident pay) (ident cont)) &&
+    binder_b pay && pbinder_b cont && negb (String.eqb (ident pay) (ident cont)) &&
     if prov_b sh rs from then
       match whdb s with
       | Some (TLolli A B _) =>
-        typed_b (<[ident pay := A]> (delete (ident cont) Γ)) (Some (ident cont)) (rs ∖ {[ident pay]} ∖ {[ident cont]}) B k
+        typed_b (<[ident pay := A]> (delete (ident cont) Γ)) (Some (ident cont)) (rs ∖ {[ident pay]} ∖ ({[ident cont]} ∖ {[""]})) B k
       | _ => false
       end
     else
       match client_lookup Γ sh from with
       | Some T => match whdb T with
                   | Some (TTensor A B _) =>
-                    negb (bool_decide (sh = Some (ident pay))) && negb (bool_decide (sh = Some (ident cont))) &&
+                    binder_b cont && negb (bool_decide (sh = Some (ident pay))) && negb (bool_decide (sh = Some (ident cont))) &&
                     typed_b (<[ident cont := B]> (<[ident pay := A]> Γ)) sh (rs ∖ {[ident pay]} ∖ {[ident cont]}) s k
                   | _ => false
                   end
@@ -241,18 +245,18 @@ Fixpoint typed_b (Γ : gmap string sty) (sh : option string) (rs : gset string) 
       | None => false
       end
   | FShift x from k =>
-    binder_b x &&
+    pbinder_b x &&
     if prov_b sh rs from then
       match whdb s with
       | Some (TUp _ _ A) =>
-        typed_b (delete (ident x) Γ) (Some (ident x)) (rs ∖ {[ident x]}) A k
+        typed_b (delete (ident x) Γ) (Some (ident x)) (rs ∖ ({[ident x]} ∖ {[""]})) A k
       | _ => false
       end
     else
       match client_lookup Γ sh from with
       | Some T => match whdb T with
                   | Some (TDown _ _ A) =>
-                    negb (bool_decide (sh = Some (ident x))) &&
+                    binder_b x && negb (bool_decide (sh = Some (ident x))) &&
                     typed_b (<[ident x := A]> Γ) sh (rs ∖ {[ident x]}) s k
                   | _ => false
                   end
@@ -271,8 +275,8 @@ with typed_brs_p_b (Γ : gmap string sty) (rs : gset string) (bs : brs) (b : bra
   | BrCons l pay k r =>
     match find_br l bs with
     | Some A =>
-      binder_b pay &&
-      typed_b (delete (ident pay) Γ) (Some (ident pay)) (rs ∖ {[ident pay]}) A k && typed_brs_p_b Γ rs bs r
+      pbinder_b pay &&
+      typed_b (delete (ident pay) Γ) (Some (ident pay)) (rs ∖ ({[ident pay]} ∖ {[""]})) A k && typed_brs_p_b Γ rs bs r
     | None => false
     end
   end
@@ -318,7 +322,7 @@ Proof.
     { intros E. rewrite E, String.eqb_refl in *. discriminate. }
     destruct (prov_b sh rs from) eqn:Ep.
     + destruct (whdb s) as [[]|] eqn:Ew; try discriminate.
-      eapply T_RecvP; eauto using prov_b_sound, whdb_sound, binder_b_sound.
+      eapply T_RecvP; eauto using prov_b_sound, whdb_sound, binder_b_sound, pbinder_b_sound.
     + destruct (client_lookup Γ sh from) as [T|] eqn:Ec; [|discriminate].
       destruct (whdb T) as [[]|] eqn:Ew; try discriminate. bsplit.
       eapply T_RecvC; eauto using whdb_sound, binder_b_sound, client_lookup_sound.
@@ -378,7 +382,7 @@ Proof.
   - (* FShift *) intros x from k IH Γ sh rs s. simpl. intros H. bsplit.
     destruct (prov_b sh rs from) eqn:Ep.
     + destruct (whdb s) as [[]|] eqn:Ew; try discriminate.
-      eapply T_ShiftP; eauto using prov_b_sound, whdb_sound, binder_b_sound.
+      eapply T_ShiftP; eauto using prov_b_sound, whdb_sound, pbinder_b_sound.
     + destruct (client_lookup Γ sh from) as [T|] eqn:Ec; [|discriminate].
       destruct (whdb T) as [[]|] eqn:Ew; try discriminate. bsplit.
       eapply T_ShiftC; eauto using whdb_sound, binder_b_sound, client_lookup_sound.
@@ -390,7 +394,7 @@ Proof.
   - (* BrNil *) split; intros; constructor.
   - (* BrCons *) intros l pay k IHk r [IHp IHc]. split.
     + intros Γ rs bs. simpl. destruct (find_br l bs) as [A|] eqn:Ef; [|discriminate]. intros H. bsplit.
-      eapply TBP_cons; eauto using binder_b_sound.
+      eapply TBP_cons; eauto using pbinder_b_sound.
     + intros Γ sh rs s bs. simpl. destruct (find_br l bs) as [A|] eqn:Ef; [|discriminate]. intros H. bsplit.
       eapply TBC_cons; eauto using binder_b_sound.
       match goal with Hx : negb (bool_decide (sh = Some (ident pay))) = true |- _ => nb Hx end.
